@@ -124,7 +124,6 @@ func (ctx *BrokerContext) Broker() {
 				vhook("w.timeout", snowflake.id)
 				// This snowflake is no longer available to serve clients.
 				ctx.snowflakeLock.Lock()
-				defer ctx.snowflakeLock.Unlock()
 				vhook("w.locked", snowflake.id, snowflake.index)
 				if snowflake.index != -1 {
 					if request.natType == NATUnrestricted {
@@ -135,6 +134,13 @@ func (ctx *BrokerContext) Broker() {
 					ctx.metrics.promMetrics.AvailableProxies.With(prometheus.Labels{"nat": request.natType, "type": request.proxyType}).Dec()
 					delete(ctx.idToSnowflake, snowflake.id)
 					close(request.offerChannel)
+					ctx.snowflakeLock.Unlock()
+				} else {
+					// A client has already popped this snowflake and is
+					// about to send its offer: pass it on to the proxy.
+					ctx.snowflakeLock.Unlock()
+					offer := <-snowflake.offerChannel
+					request.offerChannel <- offer
 				}
 			}
 		}(request)
